@@ -2,3 +2,15 @@ import FP.Props.C15
 #print axioms FP.Props.C15.narrow_signed_iff_representable
 #print axioms FP.Props.C15.narrow_unsigned_iff_representable
 #print axioms FP.Props.C15.narrow_never_panics
+#print axioms FP.Props.C15.escape_table_is_spec
+#print axioms FP.Props.C15.decodeAux_nil
+#print axioms FP.Props.C15.decodeAux_cons_ne
+#print axioms FP.Props.C15.decodeAux_esc
+#print axioms FP.Props.C15.no_backslash_unchanged
+#print axioms FP.Props.C15.escapes_decode
+#print axioms FP.Props.C15.unicode_decodes
+#print axioms FP.Props.C15.decode_encode
+#print axioms FP.Props.C15.literal_roundtrip
+#print axioms FP.Props.C15.boolean_text_roundtrip
+#print axioms FP.Props.C15.integer_text_roundtrip
+#print axioms FP.Props.C15.temporal_text_roundtrip
